@@ -31,7 +31,7 @@ moment of the assignment (language.md "set": "creates a new list or map with
 the mutation applied, and assigns it to the variable").  See
 `C15_unfixed_stale_element_container` and the first two corpus programs.
 -/
-import ElvModel.C15.Values
+import ElvModel.C15.Builtins
 namespace C15
 
 /-! ### State, outcomes, monad -/
@@ -371,7 +371,7 @@ def delLVals : List LVal → M Unit
 def builtinNames : List String :=
   ["put", "nop", "fail", "break", "continue", "return", "num", "+", "-", "*", "/", "%",
    "<", "<=", "==", "!=", ">", ">=", "eq", "not-eq", "not", "bool", "each", "all", "take", "drop",
-   "count", "one", "range", "order", "keep-if", "has-key", "kind-of"]
+   "count", "one", "range", "order", "keep-if", "has-key", "kind-of"] ++ pureBuiltinNames
 
 /-- Numbers from argument values (typed numbers or their string representation). -/
 def numArgs : List Value → M (List Rat)
@@ -444,7 +444,48 @@ def isCallable : Value → Bool
 def noOpts (optNames : List String) : M Unit :=
   if optNames.isEmpty then pure () else throwE Exc.badOption
 
-def callBuiltin (name : String) (args : List Value) (optNames : List String)
+def liftP : PRes → M (List Value)
+  | .vals vs => pure vs
+  | .err e => throwE e
+  | .unsup w => unsupported w
+
+/-- The pure builtins of `Builtins.lean`: none takes options; `compact` and
+`make-map` read "value inputs" (the optional last argument, or the input
+port); `repeat n v`: "Output `$value` for `$n` times"; the others are
+functions of their arguments. -/
+def callPure (name : String) (args : List Value) (optNames : List String) : M Unit := do
+  noOpts optNames
+  match name with
+  | "compact" => do emit (compact (← inputsOf args))
+  | "make-map" => do emit (← liftP (makeMap (← inputsOf args)))
+  | "repeat" =>
+    match args with
+    | [n, v] => do
+      let n ← intArg n
+      emit (List.replicate n.toNat v)
+    | _ => throwE Exc.arity
+  | _ => do emit (← liftP (argBuiltin name args))
+
+/-- How many arguments a builtin command takes.  (The documentation gives the
+signatures; that a wrong number of arguments is reported before an option the
+command does not take, and both before a wrong kind of argument, is pkg/eval's
+order — the documentation is silent.) -/
+def arityOk (name : String) (n : Nat) : Bool :=
+  if ["fail", "num", "not", "bool", "keys"].contains name then n == 1
+  else if ["break", "continue", "return"].contains name then n == 0
+  else if ["%", "!=", "not-eq", "has-key", "has-value", "dissoc", "repeat"].contains name then n == 2
+  else if name == "assoc" then n == 3
+  else if ["all", "one", "order", "compact", "make-map"].contains name then n ≤ 1
+  else if ["take", "drop", "each", "keep-if"].contains name then n == 1 || n == 2
+  else if name == "conj" then n ≥ 1
+  else true
+
+def precheck (name : String) (args : List Value) (optNames : List String) : M Unit :=
+  if !arityOk name args.length then throwE Exc.arity
+  else if !(["nop", "range", "order"].contains name) && !optNames.isEmpty then throwE Exc.badOption
+  else pure ()
+
+def callBuiltinBody (name : String) (args : List Value) (optNames : List String)
     (optVals : List Value) : M Unit := do
   match name with
   | "put" => do noOpts optNames; emit args
@@ -515,16 +556,6 @@ def callBuiltin (name : String) (args : List Value) (optNames : List String)
     | [v] => emit [.bool (truthy v)]
     | _ => throwE Exc.arity
   | "kind-of" => do noOpts optNames; emit (args.map (fun v => .str (kindOf v)))
-  | "has-key" => do
-    noOpts optNames
-    match args with
-    | [.map m, k] => emit [.bool (mapGet m k).isSome]
-    | [.list vs, k] =>
-      match parseIdx k with
-      | .ok i => emit [.bool (match resolveIdx vs.length i with | .ok _ => true | .error _ => false)]
-      | .error _ => emit [.bool false]
-    | [_, _] => unsupported "has-key on a value other than a map"
-    | _ => throwE Exc.arity
   | "all" => do noOpts optNames; emit (← inputsOf args)
   | "one" => do
     noOpts optNames
@@ -596,7 +627,12 @@ def callBuiltin (name : String) (args : List Value) (optNames : List String)
       let vs ← inputsOf rest
       let _ ← rec (.keepIfLoop f vs)
     | [] => throwE Exc.arity
-  | _ => unsupported ("builtin " ++ name)
+  | _ => callPure name args optNames
+
+def callBuiltin (name : String) (args : List Value) (optNames : List String)
+    (optVals : List Value) : M Unit := do
+  precheck name args optNames
+  callBuiltinBody name args optNames optVals
 
 /-! ### Function calls (language.md "Function", "fn", "tmp") -/
 
